@@ -417,7 +417,6 @@ PROBES = {
         "(satisfies? c14g.types/Shape c14g.types/a-rect)",
         "(instance? c14g.types/Rect c14g.types/a-rect)",
         "(record? c14g.types/a-rect)",
-        "(pr-str c14g.types/a-rect)",
     ],
     "c14g.meta": [
         "(meta #'c14g.meta/documented)",
@@ -515,7 +514,7 @@ PROBES = {
     "basilisp.template": ["(basilisp.template/apply-template '[x] '(+ x x) [2])"],
     "basilisp.pprint": [
         "(with-out-str (basilisp.pprint/pprint {:a [1 2 3]}))",
-        "(with-out-str (basilisp.pprint/print-table [{:a 1 :b 2}]))",
+        "(with-out-str (basilisp.pprint/print-table [:a :b] [{:a 1 :b 2}]))",
     ],
     "basilisp.contrib.bencode": [
         "(basilisp.contrib.bencode/encode {:a [1 \"s\"]})",
@@ -609,6 +608,7 @@ def marshal_boundaries(p: bytes):
 
 _LOG = []  # (fullname, "cached"|"source", "ok"|exception type name)
 _TRACE = []  # appended to by the sentinel form of generated namespaces
+_PREINIT = []
 
 
 def _child_boot(job):
@@ -617,6 +617,9 @@ def _child_boot(job):
     import importlib.util
 
     builtins.c14_trace = _TRACE
+    # a `basilispbootstrap.pth` in site-packages (the repo's CLI tests install one temporarily) initialises basilisp at
+    # interpreter start-up, i.e. before the counting wrappers below exist: harmless for the oracles, reported as a note
+    _PREINIT.append("basilisp.core" in sys.modules)
     repo_src = os.path.join(job["repo"], "src")
     import basilisp
 
@@ -1306,6 +1309,7 @@ def child_main(jobfile):
         res["boot_s"] = round(boot, 2)
         res["wall_s"] = round(time.time() - t0, 2)
         res["core_served"] = [[k, o] for (f, k, o) in _LOG if f == "basilisp.core"]
+        res["preinit"] = bool(_PREINIT and _PREINIT[0])
         payload = {"ok": res}
     except BaseException:  # noqa
         import traceback
@@ -1704,7 +1708,7 @@ def _judge_pair(res, w, r, names, src_out, cache_out):
         if "error" in c:
             res.fail("import-with-valid-cache-failed", case, detail=c["error"][:400])
             continue
-        how = "+".join("%s:%s" % (k, o) for k, o in c["served"])
+        how = "+".join("%s:%s" % (k, o) for k, o in c["served"]) or "loaded-before-the-harness-could-count"
         res.outcomes.add("reader:" + how)
         if how == "cached:ok":
             served += 1
@@ -1814,6 +1818,8 @@ def run(tier, seed):
         outs[i] = o
 
     served_total = 0
+    if any(o.get("preinit") for o in outs) or any(writers[s]["out"].get("preinit") for s in seeds):
+        res.notes.append("some child interpreters were initialised by a basilispbootstrap.pth present in site-packages at the time (installed temporarily by the repo's CLI tests); their bootstrap namespaces are not counted in served_from_cache")
     fp_lens = {}
     fp_done = {}
     caught = None
